@@ -39,7 +39,7 @@ ASSUMPTIONS = [
     "content equality (a) is equality of the library's own XML dump applied symmetrically to original and saved table bytes (faithfulness of the dump is C03's property), cross-checked by spec-written readers for name / hmtx / vmtx and by a HarfBuzz before/after differential for outlines, advances and cmap",
     "derived fields the library documents as recomputed on compile are masked in (a) only: head.checkSumAdjustment, OS/2 usFirstCharIndex/usLastCharIndex, post extraNames that are standard Macintosh names; with recalcBBoxes=True also head/glyph bboxes, head.flags bit 1 (set by maxp.recalc from 'every xMin equals its lsb'), hhea/vhea extents, maxp maxima, CFF FontBBox; their correctness is C04's job",
     "fields that only describe the chosen encoding are masked in (a) as well: head.indexToLocFormat, hhea.numberOfHMetrics / vhea.numberOfVMetrics, and the length= / nGroups= attributes of cmap subtables; the meaning they encode is judged by the spec-level readers (cmap mapping per subtable, expanded hmtx/vmtx metrics, post glyph names, name records, composite components) and by HarfBuzz / FreeType",
-    "foreign-writer inputs (vmon/gen/c01_foreign.py, assembled by the spec-level sfnt writer in oracle/c01_sfntdir.py, no fontTools involved): cmap format 4 with glyphIdArray segments carrying a non-zero idDelta, 0 entries and shared glyphIdArray ranges, format 12 in odd group splits, one subtable referenced by two encoding records; glyf slots with padding and the other loca format; hmtx untrimmed / maximally trimmed / with trailing bytes; name records over shared and overlapping string storage; post format 2 with custom names stored out of glyph order plus an unused name. A foreign cmap/post input is used only if the spec-level reader, HarfBuzz and FreeType agree on its meaning (else the case is inconclusive)",
+    "foreign-writer inputs (vmon/gen/c01_foreign.py, assembled by the spec-level sfnt writer in oracle/c01_sfntdir.py, no fontTools involved): cmap format 4 with glyphIdArray segments carrying a non-zero idDelta, 0 entries and shared glyphIdArray ranges, format 12 in odd group splits, one subtable referenced by two encoding records; glyf slots with padding and the other loca format; hmtx untrimmed / maximally trimmed / with trailing bytes; name records over shared and overlapping string storage, with a gap between the records and the storage (format 0 only: format 1 langTag records are not generated, see notes/pending_findings.md); GPOS SinglePos format 2 / PairPos format 1 whose Coverage format 2 ranges carry non-monotonic StartCoverageIndex, and SinglePos format 1 with hinting Device tables of DeltaFormat 1/2/3 whose delta count is not a multiple of the word capacity and whose trailing partial word / leading word is all zero (judged by a spec-level reader of positioning values and Device deltas); post format 2 with custom names stored out of glyph order plus an unused name. A foreign cmap/post input is used only if the spec-level reader, HarfBuzz and FreeType agree on its meaning (else the case is inconclusive)",
     "boundary-sized inputs (vmon/gen/c01_boundary.py, struct-level edits assembled by the spec-level sfnt writer): CFF local Subrs INDEX padded with one never-called subroutine to exactly 254..257 / 65534..65537 bytes of object data (only where that INDEX is the table's last structure), HVAR advance-width maps over an ItemVariationData with 100/256/257/300/1000 rows, and a cmap whose four Unicode subtables disagree on some code points together with post 3.0 (glyph names synthesised from the cmap clash 3-4 ways); judged by the spec-level INDEX reader (well-formed, same item counts), the spec-level DeltaSetIndexMap reader (expanded to numGlyphs) and HarfBuzz outlines / advances at non-default locations",
     "HarfBuzz translates a top-level glyf outline by (lsb - header xMin): with recalcBBoxes=True a glyph whose header xMin changed (struct-level read) may differ by exactly that uniform horizontal translation and nothing else",
     "generated inputs (spec-written, vmon/gen/c01_gpos.py and c01_glyf.py): a GPOS with PairPos format 1/2 record arrays above the lazy-array threshold under different ValueFormats, and composite glyphs carrying every preservable component flag and transform form written into the binary glyf by struct-level surgery (non-variable glyf hosts; composites reference only glyphs that stay simple)",
@@ -378,7 +378,8 @@ def cases(tier, seed):
     # writers and spliced in at the sfnt level (vmon/gen/c01_foreign.py)
     plain = [rec for rec in pool if rec["complete"] and rec["numGlyphs"] >= 3]
     ttplain = [rec for rec in plain if rec["outlines"] == "glyf"]
-    for kind, hosts, nq, nt in (("cmap", plain, 14, 70), ("name", plain, 6, 30), ("hmtx", plain, 8, 40),
+    for kind, hosts, nq, nt in (("cmap", plain, 14, 70), ("name", plain, 8, 30), ("hmtx", plain, 8, 40),
+                                ("gpos", [r for r in plain if r["numGlyphs"] >= 16], 10, 40),
                                 ("glyfpad", [r for r in ttplain if "VARC" not in r["tables"]], 6, 30),
                                 ("post", ttplain, 6, 30)):
         for rec in rnd.sample(hosts, min(len(hosts), nt if T else nq)):
@@ -501,6 +502,12 @@ def _foreign_source(case, ctx, src, rnd):
         elif kind == "name":
             data, desc = FW.name_foreign(rnd, tabs["name"])
             new = {"name": data} if data else None
+        elif kind == "gpos":
+            from vmon.gen import c01_gpos
+
+            data, d = c01_gpos.build_foreign(rnd, struct.unpack(">H", tabs["maxp"][4:6])[0])
+            c01_gpos.gpos_meaning(data)             # the writer's output must be readable by the spec-level reader
+            new, desc = {"GPOS": data}, "GPOS: " + ", ".join(d)
         elif kind == "hmtx":
             new, desc = FW.hmtx_foreign(rnd, tabs)
         elif kind == "glyfpad":
@@ -842,7 +849,7 @@ def _roundtrip(ctx, env, lazy, touch, rb, rnd):
     else:
         ctx.judged(len(orig))
     # struct-level readers (independent of the library) for name / hmtx / vmtx
-    if differing and _struct_diff(ctx, orig, new, label):
+    if differing and _struct_diff(ctx, orig, new, label, case):
         bad = True
     # HarfBuzz before/after differential
     if touch == "all" and kind1 == "sfnt" and env["kind"] in ("sfnt", "ttc"):
@@ -897,7 +904,7 @@ def _metrics(tables, mtx, hea):
     return long + [(long[-1][0], sb) for sb in rest]
 
 
-def _struct_diff(ctx, orig, new, label):
+def _struct_diff(ctx, orig, new, label, case=None):
     """Content equality by spec-written readers where the format is simple enough; a table the
     reader cannot take apart (malformed in the source) is not judged here."""
     from vmon.oracle import c03_strings as cs
@@ -963,6 +970,22 @@ def _struct_diff(ctx, orig, new, label):
                 ctx.violation({"kind": "struct-content", "table": "cmap", "what": "mapping" if diff[0] != "subtable list" else diff[0]},
                               "%s: spec-written reader finds a different character map (%s) after load+save" % (label, diff[0]),
                               {"detail": repr(diff[1:])[:400]})
+    if case is not None and case.get("group") == "foreign" and case.get("kind") == "gpos" and orig.get("GPOS") != new.get("GPOS"):
+        from vmon.gen import c01_gpos
+
+        ga = c01_gpos.gpos_meaning(orig["GPOS"])
+        ctx.judged()
+        ctx.note("struct-level:GPOS-single/pair/device")
+        try:
+            gb = c01_gpos.gpos_meaning(new["GPOS"])
+            k = next((k for k in sorted(set(ga) | set(gb), key=repr) if ga.get(k) != gb.get(k)), None)
+            why = None if k is None else "%r: %r -> %r" % (k, ga.get(k), gb.get(k))
+        except Exception as e:
+            why = "recompiled GPOS cannot be taken apart: %s" % (str(e)[:100] or type(e).__name__)
+        if why:
+            bad = True
+            ctx.violation({"kind": "struct-content", "table": "GPOS", "what": "positioning values / device tables"},
+                          "%s: spec-written reader finds different positioning after load+save" % label, {"detail": why[:400]})
     if "CFF " in orig and "CFF " in new and orig["CFF "] != new["CFF "]:
         from vmon.gen import c01_boundary as BD
 
